@@ -50,12 +50,17 @@ def mkrule(spec: dict, seed: int = 0):
     """Build a real Rule from a spec (verb, imp, exc, sk, subj, ok, obj | anything)."""
     r = Rule().modules_that()
     subj = _present(spec["subj"], seed)
-    r = (r.are_named if spec["sk"] == "named" else r.are_sub_modules_of)(subj)
+    if spec["sk"] == "regex":
+        r = r.have_name_matching(spec["subj"][0])
+    else:
+        r = (r.are_named if spec["sk"] == "named" else r.are_sub_modules_of)(subj)
     r = getattr(r, spec["verb"])()
     if spec.get("anything"):
         return r.import_anything() if spec["imp"] else r.be_imported_by_anything()
     r = getattr(r, IMPORT_METHOD[(spec["imp"], spec["exc"])])()
     obj = _present(spec["obj"], seed)
+    if spec["ok"] == "regex":
+        return r.have_name_matching(spec["obj"][0])
     return (r.are_named if spec["ok"] == "named" else r.are_sub_modules_of)(obj)
 
 
@@ -108,6 +113,17 @@ def plan_graph_shards(space, n_max=None, k=None, chunk=64, parts=8, with_ext=Fal
                         {"space": "A", "tree": t, "lo": lo, "hi": min(total, lo + chunk),
                          "bound": f"A({n_max}) complete"}
                     )
+    elif space == "N":
+        # package importers: a module that has sub modules imports an unrelated module (realizable
+        # through a module file next to a package directory of the same stem, pkg.py + pkg/)
+        tl = tree_list if tree_list is not None else [t for n in range(n_min, n_max + 1) for t in trees(n)]
+        for t in tl:
+            if not _nonleaf_pairs(nodes(t)):
+                continue
+            for j in range(1, k + 1):
+                for i in range(parts):
+                    shards.append({"space": "N", "tree": t, "edges": j, "i": i, "n": parts,
+                                   "bound": f"N(n={len(nodes(t))}) package importers edges={j}"})
     else:
         tl = tree_list if tree_list is not None else [t for n in range(n_min, n_max + 1) for t in trees(n)]
         for t in tl:
@@ -121,9 +137,26 @@ def plan_graph_shards(space, n_max=None, k=None, chunk=64, parts=8, with_ext=Fal
     return shards
 
 
+def _nonleaf_pairs(ns):
+    inner = [n for n in ns[1:] if any(m.startswith(n + ".") for m in ns)]
+    return [(u, v) for u in inner for v in ns[1:] if u != v and not v.startswith(u + ".") and not u.startswith(v + ".")]
+
+
 def shard_graphs(shard, seed: int = 0):
     """Yield (ns, I) for a shard; ns in pre-order, I a list of (importer, importee)."""
     t = _tuplify(shard["tree"])
+    if shard["space"] == "N":
+        ns = nodes(t)
+        special = _nonleaf_pairs(ns)
+        pairs = admissible_pairs(ns, root_importee=False) + special
+        idx = 0
+        for sub in itertools.combinations(pairs, shard["edges"]):
+            if not any(e in special for e in sub):
+                continue
+            if idx % shard["n"] == shard["i"]:
+                yield ns, list(sub)
+            idx += 1
+        return
     if shard["space"] == "A":
         ns = nodes(t)
         pairs = admissible_pairs(ns)
@@ -143,10 +176,18 @@ def _tuplify(t):
     return tuple(_tuplify(c) for c in t)
 
 
-def build(ns, I, seed: int = 0, level_limit=None):
+def build(ns, I, seed: int = 0, level_limit=None, phantom=False):
     """Evaluable for (ns, I); the seed only permutes the order in which modules and imports
-    are handed to the constructor."""
+    are handed to the constructor.  phantom=True additionally hands over imports whose importee is
+    not a module of the architecture (what the scanner produces for an import of a module removed
+    by an exclusion, or of a name that is not a module): every leaf imports the same two such
+    names; they must add neither modules nor imports."""
     ms, imps = list(ns), list(I)
+    if phantom:
+        lv = [x for x in ns if not any(y.startswith(x + ".") for y in ns) and x != ns[0]]
+        for u in lv:
+            imps.append((u, ns[0] + ".zz_excluded"))
+            imps.append((u, ns[0] + ".zz_pkg.zz_missing"))
     if seed:
         rnd = random.Random(seed)
         rnd.shuffle(ms)
